@@ -549,9 +549,27 @@ fn failure_key(f: &Failure) -> String {
     }
 }
 
+fn elog_class(b: &[u8]) -> Option<&'static str> {
+    // 48-byte header, then u32-LE length-prefixed frames
+    let mut off = 48usize;
+    while off + 4 <= b.len() {
+        let len = u32::from_le_bytes(b[off..off + 4].try_into().ok()?) as usize;
+        off += 4;
+        if len > b.len() - off {
+            return Some("declared-frame-len-exceeds-input");
+        }
+        off += len;
+    }
+    None
+}
+
+/// Input class for signatures and for the "enough witnesses" rule. Derived from the input itself where a
+/// cheap structural reading exists (CBOR, ELOG), else from the recipe that produced it.
 fn input_class(codec: &Codec, input: &Input) -> &'static str {
     if is_cborish(codec) {
         cborx::crash_class_any(&input.bytes)
+    } else if codec.name == "abi.eintlog" {
+        elog_class(&input.bytes).unwrap_or(input.kind)
     } else {
         input.kind
     }
@@ -568,7 +586,21 @@ fn threshold(len: usize) -> u64 {
 
 /// Run every input of `inputs` (minus `skip`) through `codec` in children of `lane.bin`.
 #[allow(clippy::too_many_arguments)]
-fn process_decoder(codec: &Codec, lane: &Lane<'_>, inputs: &[Input], scratch: &Scratch, tag: &str, rep: &mut Report, st: &mut stats::Local, failed_idx: &mut Vec<usize>, skip: &[usize], budget: &Budget) -> bool {
+fn process_decoder(
+    codec: &Codec,
+    lane: &Lane<'_>,
+    inputs: &[Input],
+    scratch: &Scratch,
+    tag: &str,
+    rep: &mut Report,
+    st: &mut stats::Local,
+    failed_idx: &mut Vec<usize>,
+    skip: &[usize],
+    budget: &Budget,
+    release_sigs: &std::collections::BTreeSet<String>,
+    seen_sigs: &mut std::collections::BTreeSet<String>,
+    saturated: &mut std::collections::BTreeSet<&'static str>,
+) -> bool {
     let skipset: std::collections::BTreeSet<usize> = skip.iter().copied().collect();
     let classes: Vec<&'static str> = inputs.iter().map(|i| input_class(codec, i)).collect();
     // batch files: small inputs together, big ones in groups of <= 4 MiB
@@ -609,7 +641,6 @@ fn process_decoder(codec: &Codec, lane: &Lane<'_>, inputs: &[Input], scratch: &S
     }
     let suffix = if lane.name == "release" { String::new() } else { format!(":{}-profile", lane.name) };
     let mut sig_counts: std::collections::BTreeMap<String, u32> = std::collections::BTreeMap::new();
-    let mut saturated: std::collections::BTreeSet<&'static str> = std::collections::BTreeSet::new();
     let mut complete = true;
     for (gi, idx) in groups.iter().enumerate() {
         if budget.expired() {
@@ -664,8 +695,11 @@ fn process_decoder(codec: &Codec, lane: &Lane<'_>, inputs: &[Input], scratch: &S
                     let class = classes[idx[k]];
                     st.add("alloc_ratio_violations", 1);
                     failed_idx.push(idx[k]);
+                    let base_sig = format!("C13:{}:alloc-ratio:{class}", codec.name);
+                    let sig = if release_sigs.contains(&base_sig) { base_sig.clone() } else { format!("{base_sig}{suffix}") };
+                    seen_sigs.insert(base_sig);
                     rep.violation(
-                        &format!("C13:{}:alloc-ratio:{class}{suffix}", codec.name),
+                        &sig,
                         &format!(
                             "{}: a call on a {}-byte {} input returned {} but held {} bytes of live heap at peak (limit 1 MiB + 256 x len = {}); input head {}",
                             codec.name,
@@ -714,7 +748,12 @@ fn process_decoder(codec: &Codec, lane: &Lane<'_>, inputs: &[Input], scratch: &S
                     failed_idx.push(gidx);
                     rep.eval();
                     let class = classes[gidx];
-                    let sig = format!("C13:{}:{fkey}:{class}{suffix}", codec.name);
+                    // for non-CBOR decoders the panic site already is the narrow part of the signature
+                    let sig_class = if matches!(failure, Failure::Panic(_)) && !is_cborish(codec) { "any-input" } else { class };
+                    let base_sig = format!("C13:{}:{fkey}:{sig_class}", codec.name);
+                    // a dev-lane failure that the release lane shows too is the same defect: no lane suffix
+                    let sig = if release_sigs.contains(&base_sig) { base_sig.clone() } else { format!("{base_sig}{suffix}") };
+                    seen_sigs.insert(base_sig);
                     let seen = sig_counts.entry(sig.clone()).or_insert(0);
                     *seen += 1;
                     // crafted recipes need few witnesses; generic classes keep running much longer
@@ -929,7 +968,12 @@ pub fn run(args: &Args, all: Vec<Codec>) -> i32 {
         let not_this_pass: Vec<usize> = (0..inputs.len()).filter(|i| priority[ci][*i] != (pass == 0)).collect();
         let mut failed: Vec<usize> = Vec::new();
         let lane = Lane { name: "release", bin: &self_bin };
-        if !process_decoder(codec, &lane, inputs, &scratch, &format!("d{s}"), rep, &mut st, &mut failed, &not_this_pass, &budget) {
+        let none = std::collections::BTreeSet::new();
+        let mut release_sigs = std::collections::BTreeSet::new();
+        // input classes with enough crash witnesses; the dev lane inherits them so that it never re-reports
+        // a release-lane defect on inputs the release lane skipped
+        let mut saturated = std::collections::BTreeSet::new();
+        if !process_decoder(codec, &lane, inputs, &scratch, &format!("d{s}"), rep, &mut st, &mut failed, &not_this_pass, &budget, &none, &mut release_sigs, &mut saturated) {
             complete.store(false, std::sync::atomic::Ordering::Relaxed);
         }
         if let (Some(dev), 0) = (&dev_bin, pass) {
@@ -939,7 +983,8 @@ pub fn run(args: &Args, all: Vec<Codec>) -> i32 {
             skip.extend(failed.iter().copied());
             let lane = Lane { name: "dev", bin: dev };
             let mut failed_dev = Vec::new();
-            if !process_decoder(codec, &lane, inputs, &scratch, &format!("d{s}v"), rep, &mut st, &mut failed_dev, &skip, &budget) {
+            let mut dev_sigs = std::collections::BTreeSet::new();
+            if !process_decoder(codec, &lane, inputs, &scratch, &format!("d{s}v"), rep, &mut st, &mut failed_dev, &skip, &budget, &release_sigs, &mut dev_sigs, &mut saturated) {
                 complete.store(false, std::sync::atomic::Ordering::Relaxed);
             }
         }
